@@ -83,6 +83,44 @@ def run(chk):
     chk.traces += len(ldocs)
     chk.obligation("suite:load_then_add", fired > 0, "")
     chk.record_suite("load_then_add", {"cases": len(ldocs), "adds_after_load": fired})
+    # documents that already contain a clash (in any pair of cells, 'src' buckets of older documents included): from 1.1 on they
+    # are refused, a 1.0 document is exempt
+    import copy as _copy
+    cdocs = []
+    for ver in ["1.0", "1.1", "1.1", "1.2"]:
+        for _ in range(8 if chk.tier == "quick" else 80):
+            doc = DL.gen_images_doc(rng, Rr, version=ver)
+            # (a 'src' image of a variant that lists no binary architecture is filed nowhere: it cannot clash)
+            cells = [(v, a, i) for v, arches in doc["payload"]["images"].items() for a, l in arches.items() for i in range(len(l))
+                     if a != "src" or any(x != "src" for x in arches)]
+            srcs = [c for c in cells if c[1] == "src"]
+            pick = (srcs if len(srcs) >= 2 and rng.random() < 0.6 else cells)
+            if len(pick) < 2:
+                continue
+            (v1, a1, i1), (v2, a2, i2) = rng.sample(pick, 2)
+            a_, b_ = doc["payload"]["images"][v1][a1][i1], doc["payload"]["images"][v2][a2][i2]
+            for f in ["subvariant", "type", "format", "arch", "disc_number", "unified", "additional_variants"]:
+                if f in a_:
+                    b_[f] = _copy.deepcopy(a_[f])
+                else:
+                    b_.pop(f, None)
+            b_["checksums"] = {"sha256": "9" * 64}
+            cdocs.append({"doc": doc, "cells": [[v1, a1], [v2, a2]]})
+
+    def oracle_clash(c, r):
+        ver = c["doc"]["header"]["version"]
+        if ver == "1.0":
+            return None if r[0] == "ok" else "a 1.0 document (identity not checked before 1.1) was refused: %r" % (r,)
+        if r[0] == "ok":
+            return "a %s document holding two images with one identity and different checksums (cells %r) was loaded" % (ver, c["cells"])
+        if r[1] != "ValueError":
+            return "clash in a %s document raised %s" % (ver, r[1])
+        return None
+
+    from props.C10 import model_load_images_norm
+    core.differential(chk, "docs_legacy:clash", cdocs, "load_images", model_cases=[c["doc"] for c in cdocs],
+                      impl_fn="impl_load_legacy_images", nontrivial=lambda c, r: r[0] != "ok", oracle=oracle_clash,
+                      normalise=lambda r: [r[0], r[1]] if (isinstance(r, list) and r and r[0] == "err") else (["ok"] if (isinstance(r, list) and r and r[0] == "ok") else r))
     # identity of an object == identity of its serialised dictionary
     R = S.reflect()
     imgs = [S.gen_image(rng, R, small=False, idx=i) for i in range(N[chk.tier])]
